@@ -406,6 +406,76 @@ func execC06(ci any) (r hx.Result) {
 			}
 		}
 	}
+	// (3) the Rock Ridge view of an independent reader: exact names, kinds, sizes, contents and link targets
+	if f.Iso.RockRidge {
+		for _, dg := range rep.RRDiag {
+			r.Note("rock ridge diagnostic: %s", firstWords(dg, 8))
+		}
+		if !rep.HasRR {
+			r.Fail("indep-rr-absent", "the image was finalized with RockRidge but an independent reader finds no SUSP SP entry in the root directory")
+			return
+		}
+		byRR := map[string]indep.ISOFile{}
+		for _, x := range rep.RRFiles {
+			if _, dup := byRR[x.Path]; dup {
+				r.Fail("indep-rr-dup", "independent Rock Ridge reader: %q is listed twice", clip(x.Path))
+				return
+			}
+			byRR[x.Path] = x
+		}
+		var missing, extra []string
+		want := map[string]mk.Entry{}
+		for _, e := range f.Tree {
+			want[e.Path] = e
+			if _, ok := byRR[e.Path]; !ok {
+				missing = append(missing, e.Path)
+			}
+		}
+		for p := range byRR {
+			if _, ok := want[p]; !ok {
+				extra = append(extra, p)
+			}
+		}
+		sort.Strings(missing)
+		sort.Strings(extra)
+		if len(missing)+len(extra) > 0 {
+			r.Fail("indep-rr-tree", "the tree an independent Rock Ridge reader finds differs from the source: missing %s, unexpected %s (diagnostics: %s)", shortList(missing), shortList(extra), shortList(rep.RRDiag))
+			return
+		}
+		for p, e := range want {
+			x := byRR[p]
+			switch e.Kind {
+			case mk.KDir:
+				if !x.Dir {
+					r.Fail("indep-rr-kind", "independent Rock Ridge reader: %q is not a directory", clip(p))
+					return
+				}
+			case mk.KLink:
+				if !x.RR.IsLink {
+					r.Fail("indep-rr-kind", "independent Rock Ridge reader: %q has no SL field, the source is a symlink", clip(p))
+					return
+				}
+				if x.RR.Link != e.Target {
+					r.Fail("indep-rr-symlink", "independent Rock Ridge reader: %q -> %q, source %q", clip(p), clip(x.RR.Link), clip(e.Target))
+					return
+				}
+			default:
+				if x.Dir || x.RR.IsLink {
+					r.Fail("indep-rr-kind", "independent Rock Ridge reader: %q is a regular file in the source, dir=%v link=%v in the image", clip(p), x.Dir, x.RR.IsLink)
+					return
+				}
+				b, err := indep.ReadISOFile(d, f.Start, rep.BlockSize, x)
+				if err != nil {
+					r.Fail("indep-read", "independent reader cannot read %q: %v", clip(p), err)
+					return
+				}
+				if wantData := e.Data.Bytes(); !bytes.Equal(b, wantData) {
+					r.Fail("indep-rr-content", "independent Rock Ridge reader: %q content differs (%s)", clip(p), diffAt(b, wantData))
+					return
+				}
+			}
+		}
+	}
 	return
 }
 
